@@ -81,3 +81,60 @@ func waitLibGoroutinesAtMost(n int, bound time.Duration) (int, string) {
 		}
 	}
 }
+
+var goroutineHeaderRe = regexp.MustCompile(`(?m)^goroutine (\d+) \[([^\],]+)`)
+
+// activeGoroutines takes a stop-the-world snapshot of all goroutines and
+// returns how many, other than the caller, are running, runnable, sleeping or
+// in a system call: goroutines that will make progress on their own.  A
+// goroutine parked in select / chan receive / chan send cannot have a
+// non-empty inbox, so "zero active" means nothing is in flight anywhere in
+// the process (timers aside).
+func activeGoroutines() (int, string) {
+	buf := make([]byte, 1<<20)
+	for {
+		n := goruntime.Stack(buf, true)
+		if n < len(buf) {
+			buf = buf[:n]
+			break
+		}
+		buf = make([]byte, 2*len(buf))
+	}
+	active := 0
+	var which []string
+	for i, g := range strings.Split(string(buf), "\n\n") {
+		if i == 0 {
+			continue // the caller itself (always listed first)
+		}
+		m := goroutineHeaderRe.FindStringSubmatch(g)
+		if m == nil {
+			continue
+		}
+		switch m[2] {
+		case "running", "runnable", "sleep", "syscall":
+			active++
+			if len(which) < 4 {
+				which = append(which, g)
+			}
+		}
+	}
+	return active, strings.Join(which, "\n\n")
+}
+
+// waitQuiescent waits until no other goroutine of the process is active.
+func waitQuiescent(bound time.Duration) bool {
+	deadline := time.Now().Add(bound)
+	for i := 0; ; i++ {
+		if n, _ := activeGoroutines(); n == 0 {
+			return true
+		}
+		if time.Now().After(deadline) {
+			return false
+		}
+		if i < 20 {
+			goruntime.Gosched()
+		} else {
+			time.Sleep(50 * time.Microsecond)
+		}
+	}
+}
